@@ -98,5 +98,6 @@ func RoundEven(x complex128, prec int) complex128 {
 
 // Same returns true when the inputs have the same value, allowing NaN equality.
 func Same(a, b complex128) bool {
-	return a == b || (cmplx.IsNaN(a) && cmplx.IsNaN(b))
+	return a == b || (cmplx.IsNaN(a) && cmplx.IsNaN(b)) ||
+		(scalar.Same(real(a), real(b)) && scalar.Same(imag(a), imag(b)))
 }
